@@ -1,4 +1,5 @@
 """C15 -- precipitate shape factors match the geometry they describe (DESIGN 6, C15)."""
+from fractions import Fraction
 from kvc.dsl import *
 from kvc import sym
 
@@ -101,6 +102,11 @@ def c_at_one(ctx, it, cfg):
     pub = {'_eqRadius': 'eqRadiusFactor', '_kineticFactor': 'kineticFactor', '_thermoFactor': 'thermoFactor'}
     for f in algebraic:
         ctx.prove('%s/continuous-at-1 (value at 1 = formula at 1)' % pub[f], eq(getattr(d, pub[f])(1), getattr(d, f)(one).get(0)))
+    if cfg['cls'] == 'CuboidalDescription':
+        # the cuboid kinetic factor is 0/0 at aspect 1; its limit there is 0.1 + 1.736/2 = 0.968.  The value the code uses at and below 1 is a closed
+        # numeric expression: decided with outward-rounded interval enclosures of exp, sqrt, cbrt and log (continuity to within 1e-3)
+        lim = Fraction(968, 1000)
+        ctx.prove('kineticFactor/value-at-1-is-the-limit-of-the-formula (within 1e-3)', and_(d.kineticFactor(1) >= lim - Fraction(1, 1000), d.kineticFactor(1) <= lim + Fraction(1, 1000)))
 
 
 @REG.contract('factors/array-calls', [SF + ':ShapeDescriptionBase.%s' % f for f in ('eqRadiusFactor', 'kineticFactor', 'thermoFactor', 'normalRadii', '_processAspectRatio')],
